@@ -112,7 +112,7 @@ var (
 	reRollback  = regexp.MustCompile(`^ROLLBACK TO SAVEPOINT (\S+)$`)
 	reAdv       = regexp.MustCompile(`(?i)^SELECT (pg_advisory_lock|pg_advisory_xact_lock|pg_try_advisory_lock|pg_try_advisory_xact_lock|pg_advisory_unlock)\((?:hashtext\('([^']*)'\)|(\d+))\)$`)
 	reUpdState  = regexp.MustCompile(`^UPDATE "_system"\."ledgers" AS "ledgers" SET state = '([^']*)' WHERE \(id = (\d+) and state = '([^']*)'\)$`)
-	reSetval    = regexp.MustCompile(`^select setval\(\s*'("[^"]*"\."[^"]*")',\s*\(\s*select max\(id\) from "([^"]*)"\.(\w+) where ledger = '([^']*)'\s*\)::bigint\s*\)$`)
+	reSetval    = regexp.MustCompile(`^select setval\(\s*'("[^"]*"\."[^"]*")',\s*\(\s*select max\(id\) from "([^"]*)"\.(\w+)(?: where ledger = '([^']*)')?\s*\)::bigint\s*\)$`)
 	reSelLedger = regexp.MustCompile(`^SELECT (.*) FROM "_system"\."ledgers" AS "ledgers" WHERE \(id = (\d+)\)$`)
 	reSpaces    = regexp.MustCompile(`\s+`)
 )
@@ -214,8 +214,18 @@ func (c *conn) ExecContext(ctx context.Context, query string, args []driver.Name
 	if m := reSetval.FindStringSubmatch(q); m != nil {
 		seq, bucket, table, ledgerName := m[1], m[2], m[3], m[4]
 		err := c.sess.stmt(taskKeyOf(ctx), func() error {
-			l, _ := c.sess.get(rowKey{"ledger", "", ledgerName}).(*LedgerRow)
-			if l == nil || l.Bucket != bucket {
+			var ledgers []string
+			if ledgerName == "" {
+				// no ledger predicate: the maximum is taken over the whole table of the bucket
+				for _, k := range c.sess.scan("ledger", "") {
+					if l, _ := c.sess.get(k).(*LedgerRow); l != nil && l.Bucket == bucket {
+						ledgers = append(ledgers, l.Name)
+					}
+				}
+			} else if l, _ := c.sess.get(rowKey{"ledger", "", ledgerName}).(*LedgerRow); l != nil && l.Bucket == bucket {
+				ledgers = []string{ledgerName}
+			}
+			if len(ledgers) == 0 {
 				// max over an empty set is NULL; setval(NULL) returns NULL and changes nothing
 				return nil
 			}
@@ -229,9 +239,11 @@ func (c *conn) ExecContext(ctx context.Context, query string, args []driver.Name
 				return pgErr("42P01", "relation does not exist: "+table, "")
 			}
 			var max int64 = -1
-			for _, k := range c.sess.scan(tbl, ledgerName) {
-				if id, err := strconv.ParseInt(k.Key, 10, 64); err == nil && id > max {
-					max = id
+			for _, name := range ledgers {
+				for _, k := range c.sess.scan(tbl, name) {
+					if id, err := strconv.ParseInt(k.Key, 10, 64); err == nil && id > max {
+						max = id
+					}
 				}
 			}
 			if max < 0 {
@@ -380,6 +392,9 @@ func (c *conn) sqlStatement(ctx context.Context, query string) (*sqlResult, erro
 		var ue *errUnsupportedSQL
 		if errors.As(err, &ue) {
 			return nil, c.w.unsupportedSQL(ctx, err, query)
+		}
+		if sqlTrace {
+			fmt.Fprintf(os.Stderr, "SQLTRACE %s: -> error %v\n", taskKeyOf(ctx), err)
 		}
 		return nil, err
 	}
